@@ -53,6 +53,7 @@ var h1specs = []h1spec{
 	{Name: "queued-maxconns-get", Queued: true},
 	{Name: "fresh-upload-expect-continue", Upload: true, Expect: true},
 	{Name: "tls-handshake-never-answered", TLS: true, HSTimeout: true},
+	{Name: "fresh-upload-producer-stalls", Upload: true, Stall: true},
 }
 
 var h2specs = []h2spec{
@@ -65,6 +66,7 @@ var h2specs = []h2spec{
 	{Name: "expect-continue-upload", Upload: true, Expect: true},
 	{Name: "early-response-upload", Upload: true, EarlyRsp: true},
 	{Name: "stalled-body-then-peer-reset", Stalled: true},
+	{Name: "fresh-upload-producer-stalls", Upload: true, Stall: true},
 }
 
 var h3specs = []h3spec{
@@ -139,7 +141,9 @@ func runJob(j job, seed uint64, quick bool) (out []result) {
 		steps := h1steps(sp)
 		n := len(steps)
 		add := func(o obs) { out = append(out, result{H1: &o}) }
-		add(runH1(sp, "none", n, false, quick)) // HSTimeout: the dial's own timeout fails the call
+		if !sp.Stall { // (without an injection a stalled producer never lets the call end)
+			add(runH1(sp, "none", n, false, quick)) // HSTimeout: the dial's own timeout fails the call
+		}
 		for pos := 0; pos <= n; pos++ {
 			for _, k := range kindsAt(pos, seed, quick) {
 				if sp.Queued && k == "client-timeout" {
@@ -175,7 +179,7 @@ func runJob(j job, seed uint64, quick bool) (out []result) {
 		steps := h2steps(sp)
 		n := len(steps)
 		add := func(o h2obs) { out = append(out, result{H2: &o}) }
-		if !sp.Stalled { // (without an injection a stalled body source never lets the call end)
+		if !sp.Stalled && !sp.Stall { // (without an injection a stalled body source never lets the call end)
 			add(runH2(sp, "none", n, false))
 		}
 		for pos := 0; pos <= n; pos++ {
